@@ -57,7 +57,7 @@ def scripts_for(pid, tier, seed, rep):
         scripts.append(("random", cc.random_script(rng, ln, lose=(pid == "C03"), events=(pid != "C01" or i % 2 == 1))))
     if pid in ("C01", "C03"):
         # the caller of a queued command gives up on it; the commands behind it go out and are answered all the same
-        for which in (2, 3):
+        for which in (1, 2, 3):
             sc = [dict(a="Submit", k="plain"), dict(a="Submit", k="plain"), dict(a="Submit", k="plain"), dict(a="Submit", k="cb"),
                   dict(a="GiveUp", c=which)]
             for cls in ("2", "2", "5", "2"):
@@ -65,6 +65,17 @@ def scripts_for(pid, tier, seed, rep):
             if pid == "C03":
                 sc = sc[:7] + [dict(a="Lose", clean=False, local=False), dict(a="Submit", k="plain")]
             scripts.append(("giveup", [dict(x) for x in sc]))
+    if pid == "C02":
+        # the caller of the command in flight (or of a queued one) gives up on it, and an event arrives before Tor's reply
+        for which in (2, 3):
+            for shape in (["s"], ["m", "sOK"], ["p", "d", ".", "sOK"]):
+                sc = [dict(a="AddL", l="ok1", n="EVA"), dict(a="BeginReply", cls="2", sh=["sOK"]), dict(a="Line"),
+                      dict(a="Submit", k="plain"), dict(a="Submit", k="plain"), dict(a="Submit", k="cb"),
+                      dict(a="GiveUp", c=which), dict(a="BeginEvent", n="EVA", sh=shape)] + [dict(a="Line")] * len(shape)
+                for cls in ("2", "5", "2"):
+                    sc += [dict(a="BeginReply", cls=cls, sh=["s"]), dict(a="Line")]
+                sc += [dict(a="BeginEvent", n="EVA", sh=["s"]), dict(a="Line")]
+                scripts.append(("giveup", [dict(x) for x in sc]))
     if pid in ("C01", "C03"):
         # a command text outside ASCII among ordinary ones, then (C03) the connection is lost with everything unanswered
         for clean in (False, True):
